@@ -1,10 +1,94 @@
 import GormModel.Drv.Util
+import GormModel.Model.WriteSet
 open Lean
 namespace Gorm.Drv
+open Gorm.WriteSet
+
+def c10Name? (j : Json) : Option Col := (jStr? j).map String.toList
+def c10Names? (j : Json) : Option (List Col) := do (← jArr? j).toList.mapM c10Name?
+def c10NameJ (n : Col) : Json := Json.str (String.ofList n)
+def c10NamesJ (l : List Col) : Json := Json.arr (l.map c10NameJ).toArray
+
+def c10Field? (j : Json) : Option FieldSpec := do
+  let a ← jArr? j
+  some { name := ← c10Name? (arg a 0), dbName := ← c10Name? (arg a 1),
+         primaryKey := ← jBool? (arg a 2), creatable := ← jBool? (arg a 3), updatable := ← jBool? (arg a 4),
+         readable := ← jBool? (arg a 5), autoCreateTime := ← jBool? (arg a 6), autoUpdateTime := ← jBool? (arg a 7),
+         hasDefault := ← jBool? (arg a 8), defaultIface := ← jBool? (arg a 9), defaultNull := ← jBool? (arg a 10) }
+
+def c10Schema? (j : Json) : Option Schema := do
+  let table ← c10Name? (← (j.getObjVal? "table").toOption)
+  let fields ← (← jArr? (← (j.getObjVal? "fields").toOption)).toList.mapM c10Field?
+  let rels ← c10Names? (← (j.getObjVal? "rels").toOption)
+  let ddb ← c10Names? (← (j.getObjVal? "defaultDB").toOption)
+  some { table := table, fields := fields, rels := rels, defaultDB := ddb }
+
+def c10Pair? (j : Json) : Option (Col × Col) := do
+  let a ← jArr? j
+  some (← c10Name? (arg a 0), ← c10Name? (arg a 1))
+
+def c10KeyNil? (j : Json) : Option (Col × Bool) := do
+  let a ← jArr? j
+  some (← c10Name? (arg a 0), ← jBool? (arg a 1))
+
+def c10Rows? (j : Json) : Option (List (List Col)) := do (← jArr? j).toList.mapM c10Names?
 
 /-- line-protocol handler for C10 (ops are JSON arrays `[opname, args…]`); returns `none` for ops it does not own -/
 def handleC10 (op : String) (args : Array Json) : Option Json := do
   match op with
+  | "c10.perm" =>
+    let tags ← (← jArr? (arg args 1)).toList.mapM c10Pair?
+    let p := permOfTags tags
+    some (Json.arr #[Json.bool p.creatable, Json.bool p.updatable, Json.bool p.readable, Json.bool p.ignoreMigration])
+  | "c10.match" =>
+    let s ← c10Name? (arg args 1)
+    let r := matchName s
+    some (Json.arr #[c10NameJ r.1, c10NameJ r.2])
+  | "c10.sao" =>
+    let s ← c10Schema? (arg args 1)
+    let sel ← c10Names? (arg args 2)
+    let om ← c10Names? (arg args 3)
+    let r := selectAndOmit s sel om (← jBool? (arg args 4)) (← jBool? (arg args 5))
+    let keys := (r.1.map (·.1)).eraseDups
+    let kv := keys.map fun k => Json.arr #[c10NameJ k, Json.bool ((r.1.lookup k).getD false)]
+    some (Json.mkObj [("r", Json.arr kv.toArray), ("restricted", Json.bool r.2)])
+  | "c10.updmap" =>
+    let s ← c10Schema? (arg args 1)
+    let keys ← (← jArr? (arg args 5)).toList.mapM c10KeyNil?
+    let set := assignmentsOfMap s (← c10Names? (arg args 2)) (← c10Names? (arg args 3)) (← jBool? (arg args 4)) keys
+    some (Json.arr #[c10NamesJ set, c10NamesJ (modelConds s (← c10Names? (arg args 6)))])
+  | "c10.updstruct" =>
+    let s ← c10Schema? (arg args 1)
+    let u ← c10Schema? (arg args 2)
+    let r := assignmentsOfStruct s u (← c10Names? (arg args 3)) (← c10Names? (arg args 4)) (← jBool? (arg args 5))
+      (← jBool? (arg args 6)) (← c10Names? (arg args 7)) (← c10Names? (arg args 8))
+    some (Json.arr #[c10NamesJ r.1, c10NamesJ r.2])
+  | "c10.create" =>
+    let s ← c10Schema? (arg args 1)
+    let sel ← c10Names? (arg args 2)
+    let om ← c10Names? (arg args 3)
+    let cols := createColumns s sel om (← jBool? (arg args 4)) (← c10Rows? (arg args 5))
+    let ups := if (← jBool? (arg args 6)) then upsertAssignments s sel om cols else []
+    some (Json.arr #[c10NamesJ cols, c10NamesJ ups])
+  | "c10.createmap" =>
+    let s ← c10Schema? (arg args 1)
+    some (c10NamesJ (createColumnsMap s (← c10Names? (arg args 2)) (← c10Names? (arg args 3)) (← c10Names? (arg args 4))))
+  | "c10.createmaps" =>
+    let s ← c10Schema? (arg args 1)
+    some (c10NamesJ (createColumnsMaps s (← c10Names? (arg args 2)) (← c10Names? (arg args 3)) (← c10Rows? (arg args 4))))
+  | "c10.upsert" =>
+    let s ← c10Schema? (arg args 1)
+    some (c10NamesJ (upsertAssignments s (← c10Names? (arg args 2)) (← c10Names? (arg args 3)) (← c10Names? (arg args 4))))
+  | "c10.save" =>
+    let s ← c10Schema? (arg args 1)
+    let nz ← c10Names? (arg args 4)
+    let r := saveAssignments s (← c10Names? (arg args 2)) (← c10Names? (arg args 3)) nz
+    let route := match saveRoute s nz with
+      | .create => "create"
+      | .update => "update"
+    some (Json.arr #[Json.str route, c10NamesJ r.1, c10NamesJ r.2])
+  | "c10.saverow" =>
+    some (Json.bool (saveWritesRow (← jBool? (arg args 1)) (← jBool? (arg args 2)) (← jBool? (arg args 3))))
   | _ => none
 
 end Gorm.Drv
